@@ -609,6 +609,7 @@ class Epoch(object):
         :returns: Month as integer in the [1, 12] range, or as a long name.
         :rtype: int, str
         :raises: ValueError if input month value is invalid.
+        :raises: TypeError if input month is not a number or a string.
 
         >>> Epoch.get_month(4.0)
         4
@@ -687,6 +688,8 @@ class Epoch(object):
                         return month
                 else:
                     raise ValueError("Invalid value for the input month")
+        else:
+            raise TypeError("Invalid input type")
 
     @staticmethod
     def is_leap(year):
